@@ -412,7 +412,8 @@ def run(ctx):
     rules.append(r)
 
     # ---------------------------------------------------------------- LZSS writer/reader agreement (shared with C12): CYTHON_COMPRESS_STRINGS=90 vs 0
-    for r in num.lzss_rules(ctx):
+    from ..rules import sC12     # the copy of num.lzss_rules with two false alarms on behaviour-preserving rewrites repaired
+    for r in sC12.lzss_rules(ctx):
         r.id = r.id.replace('C12-', 'C39-LZSS-')
         for f in r.findings:
             f.rule = r.id
